@@ -10,6 +10,9 @@ CONSTANTS
   GasPrices <- GPV
   Values <- VV
   NonceDeltas <- NDV
+  SDOV = "SDO"
+  SDSV = "SDS"
+  InnerAmt = 1
   Intrinsic = 1
   InitBal <- BalV
   InitNonce <- NonceV
